@@ -333,7 +333,8 @@ def copy_cases(draw):
     pre = None
     if draw(st.integers(0, 2)) == 0:
         pre = {'module': files[0]['module'], 'rev': draw(st.sampled_from(REVS + [None])), 'marker': 'pre'}
-    return {'files': files, 'pre': pre, 'as_dirs': draw(st.integers(0, 3)) == 0, 'hashseed': draw(st.sampled_from((0, 3)))}
+    return {'files': files, 'pre': pre, 'as_dirs': draw(st.integers(0, 3)) == 0, 'hashseed': draw(st.sampled_from((0, 3))),
+            'reldst': draw(st.booleans())}    # destination typed as a relative path (cwd = its parent)
 
 
 def _revkey(rev):
@@ -377,8 +378,8 @@ def copy_prop(case, rec):
                 srcs = [os.path.join(root, d) for d in order[1:] if os.path.isdir(os.path.join(root, d))]
             else:
                 srcs = [os.path.join(root, files[i]['dir'], files[i]['file']) for i in order]
-            args = ['--mib-source=' + based] + srcs + [dst]
-            rc, err = run_tool('mibcopy.py', args, hashseed=case['hashseed'])
+            args = ['--mib-source=' + based] + srcs + ['dst' if case.get('reldst') else dst]
+            rc, err = run_tool('mibcopy.py', args, cwd=root if case.get('reldst') else None, hashseed=case['hashseed'])
             rec.evaluated()
             extra = {'argv': [a.replace(root, '<root>') for a in args], 'stderr': err[-1200:], 'exit': rc}
             if rc != 0:
